@@ -464,7 +464,7 @@ def params_within(sa, sb, rel, abs_):
     return False
 
 
-def check_pair(ctx, sa, sb, tags, lean_rows, extra=None, protocol=None):
+def check_pair(ctx, sa, sb, tags, lean_rows, extra=None, protocol=None, gen_rows=True):
     """one unordered pair: both orders on the implementation, the spec rules S1..S5, queue driver lines;
     `extra` = further entries of the reported case (the recorded history of the process, see HistoryBatch);
     `protocol` = how the two verdicts are obtained (fcv.c16_batches_p6g.run_protocol; None = a.equals(b), b.equals(a)
@@ -573,7 +573,7 @@ def check_pair(ctx, sa, sb, tags, lean_rows, extra=None, protocol=None):
             lean_rows.append(("eq", dict(case, call="first of two"), order, v,
                               f"c16eq {ea} {eb}" if order == "a.equals(b)" else f"c16eq {eb} {ea}", None))
         for s, obj, enc, lm in ((sa, A, ea, lma), (sb, B, eb, lmb)):
-            if s["k"] in "RSI":
+            if s["k"] in "RSI" and gen_rows:
                 dflt = None if "tol" in s else f2u(obj.absolute_tolerance)
                 lean_rows.append(("gen", s, "", dflt, f"c16gen {enc} {meshgen.enc_mesh(lm)}", None))
     for order, v in earlier:
@@ -681,18 +681,25 @@ def check_nonfinite(ctx, sa, sb, name):
 def run_p6g_batches(ctx, rows):
     import random
     rng = random.Random((ctx.seed * 7919) ^ 0x16C6)     # own stream: the pairs drawn by the older batches keep their seeds
-    batches = [("matrix", p6g.matrix_cases(rng, ctx.scale(10, 60))),
+    batches = [("matrix", p6g.matrix_cases(rng, ctx.scale(6, 60))),
                ("celltypes", p6g.celltype_cases(rng, ctx.scale(60, 900))),
                ("storage", p6g.storage_cases(rng, ctx.scale(90, 1200)))]
+    seen = set()
     for bname, cases in batches:
-        for sa, sb, tags, proto in cases:
-            check_pair(ctx, sa, sb, ["p6g-" + bname] + tags, rows, None, protocol=proto)
+        for ci, (sa, sb, tags, proto) in enumerate(cases):
+            # the matrix batch meets the same few structured objects again and again: their generated points / connectivity /
+            # default tolerance are compared with the model's when a description occurs for the first time (and for every
+            # eighth pair: objects that went through different protocols)
+            keys = {repr(s_) for s_ in (sa, sb) if s_["k"] in "RSI"}
+            gen = bname != "matrix" or ci % 8 == 0 or not keys <= seen
+            seen |= keys
+            check_pair(ctx, sa, sb, ["p6g-" + bname] + tags, rows, None, protocol=proto, gen_rows=gen)
             if len(rows) >= 4000:
                 flush_lean(ctx, rows)
                 del rows[:]
         flush_lean(ctx, rows)
         del rows[:]
-    exts = [[40, 30, 0], [0, 1500, 0], [11, 10, 9]] + ctx.scale([[300, 0, 230]], [[0, 12, 90], [300, 0, 230], [0, 0, 70000], [45, 40, 40], [260, 260, 0]])
+    exts = [[40, 30, 0], [0, 1500, 0]] + ctx.scale([[300, 0, 230]], [[11, 10, 9], [0, 12, 90], [300, 0, 230], [0, 0, 70000], [45, 40, 40], [260, 260, 0]])
     for case in p6g.large_cases(rng, exts, full_above=ctx.scale(20000, 10 ** 9)):
         check_large(ctx, case)
     for sa, sb, name in p6g.nonfinite_cases():
